@@ -184,6 +184,15 @@ def option_value(E, t, key, default):
     return r
 
 
+@method('Opaque.get')
+def opaque_get(E, v, args, node):
+    key = args.pos[0]
+    if not isinstance(key, str):
+        raise Unsupported('get(%r) on an opaque option set' % (key,))
+    default = args.pos[1] if len(args.pos) > 1 else None
+    return option_value(E, v.t, key, default)
+
+
 # ------------------------------------------------------------------------------------------------ element mutation
 @method('Opaque.pop')
 def opaque_pop(E, v, args, node):
